@@ -2,6 +2,11 @@
 
 proof side     : Props/C16.lean (density_is_quadrature, density_decomposition_independent, density_linear,
                  density_perturbed_affine, density_zero_for_equilibrium, density_exact_in_spline_space)
+                 Props/C16Gen.lean (tie by translation: Generated/DensityGen.lean = `get_rho`, `get_perturbed_rho` of
+                 pygyro/poisson/poisson_tools.py regenerated from the source on every run, REAL instance of the type
+                 variable `T`; gen_get_rho_eq / gen_get_perturbed_rho_eq: generated = Model `getRhoKernel` /
+                 `getPerturbedRhoKernel` inside the box `rho.shape` for all extents and every coefficient length, entries
+                 outside untouched; gen_*_overwrites: previous contents of rho irrelevant; gen_density_is_quadrature)
 correspondence : real `DensityFinder.getPerturbedRho/getRho` on every rank of every process grid with <= 6
                  simulated ranks vs. the Lean model (Drivers/C14.lean, op `density`) fed with the real
                  quadrature coefficients and the real equilibrium table; exact rational value, float and complex rho.
@@ -295,7 +300,9 @@ def run(chk):
                 'exact equilibrium / polynomial in v, perturbed or total density, float or complex rho; each on every '
                 'process grid (pr,pz) with pr*pz<=6, pr<=nr, pz<=nz; non-trivial = r distributed (pr>1); '
                 'distinct by (sizes, degree, flags, kind, grid)')
-    chk.proof_side(build=not getattr(chk, 'no_build', False))
+    # Props/C16Gen.lean is about Generated/DensityGen.lean = the two kernels as the source says them NOW: regenerate it first
+    common.run_translator(chk, 'translate_pure.py', '--only', 'density')
+    chk.proof_side(build=not getattr(chk, 'no_build', False), extra_props=('C16Gen',))
     common.use_repo()
     drv = common.LeanDriver('C14.lean')
     stats = {'model': 0.0, 'integral': 0.0}
